@@ -49,7 +49,10 @@ def spell(rng, v):
     return ("-" + s) if v < 0 else s
 
 
-def instr_program(t, n, text):
+def instr_program(t, n, text, unused=False):
+    if unused:
+        # the production does not mention the parameter: the argument must still be range-checked
+        return "#ruledef\n{\n    e {x: %s%d} => 0x55\n}\ne %s\n" % (t, n, text)
     return "#ruledef\n{\n    e {x: %s%d} => x\n}\ne %s\n" % (t, n, text)
 
 
@@ -153,32 +156,32 @@ def run(chk):
         v = b + rng.randrange(-3, 4) if rng.random() < 0.7 else rng.randrange(-(2 ** n) - 4, 2 ** n + 5)
         t = rng.choice("usi")
         text = spell(rng, v)
-        pcases.append((t, n, v, text))
-    pops = [fw.asm_op([("main.asm", instr_program(t, n, text))]) for (t, n, v, text) in pcases]
-    mops = ["arg %s %d %d" % (t, n, v) for (t, n, v, text) in pcases]
+        pcases.append((t, n, v, text, rng.random() < 0.15))
+    pops = [fw.asm_op([("main.asm", instr_program(t, n, text, un))]) for (t, n, v, text, un) in pcases]
+    mops = ["arg %s %d %d" % (t, n, v) for (t, n, v, text, un) in pcases]
     impl = fw.run_oracle(pops, "c04p")
     model = fw.run_model(mops, "c04p")
-    for (t, n, v, text), op, a, m in zip(pcases, pops, impl, model):
+    for (t, n, v, text, un), op, a, m in zip(pcases, pops, impl, model):
         chk.evaluations += 1
         kind, data = classify_asm(a)
         exp_ok = in_range(t, n, v)
-        exp_bits = low_bits(v, n)
+        exp_bits = "01010101" if un else low_bits(v, n)
         # model prediction
-        mpred = ("ok", low_bits(v, n)) if m.startswith("ok") else ("err", None)
+        mpred = ("ok", exp_bits) if m.startswith("ok") else ("err", None)
         if (kind, data if kind == "ok" else None) != mpred:
             chk.disagree("program e %s with %s%d" % (text, t, n), m, [kind, data])
         if near_boundary(n, v):
             chk.nontriv(("p", t, n, v))
         chk.count("prog_" + kind)
         if kind == "panic" or kind == "inconsistent":
-            chk.violate("one-instruction program crashed or was inconsistent", {"program": instr_program(t, n, text)}, "ok or error", a)
+            chk.violate("one-instruction program crashed or was inconsistent", {"program": instr_program(t, n, text, un)}, "ok or error", a)
         elif exp_ok != (kind == "ok"):
-            chk.violate("typed argument acceptance (program)", {"program": instr_program(t, n, text)}, "accept" if exp_ok else "reject", [kind, data])
+            chk.violate("typed argument acceptance (program)", {"program": instr_program(t, n, text, un)}, "accept" if exp_ok else "reject", [kind, data])
         elif kind == "ok" and data != exp_bits:
-            chk.violate("emitted bits are not the N low-order bits", {"program": instr_program(t, n, text)}, exp_bits, data)
+            chk.violate("emitted bits are not the N low-order bits", {"program": instr_program(t, n, text, un)}, exp_bits, data)
         elif kind == "err" and not any("out of range" in d for d in data):
-            chk.violate("rejected for another reason than range", {"program": instr_program(t, n, text)}, "argument out of range", data)
-    chk.sample({"program": instr_program(*pcases[0][:2], pcases[0][3]), "impl": classify_asm(impl[0]), "model": model[0]})
+            chk.violate("rejected for another reason than range", {"program": instr_program(t, n, text, un)}, "argument out of range", data)
+    chk.sample({"program": instr_program(*pcases[0][:2], pcases[0][3], pcases[0][4]), "impl": classify_asm(impl[0]), "model": model[0]})
     chk.traces += len(pops)
 
     # ---------------- 3. data directives
